@@ -157,8 +157,8 @@ def olc_side(rule, what='the olc_db instantiation'):
 
 KEYBUF = ('unodb::detail::key_buffer',)
 ORD_RANGE = R(lambda cfg: find.ord1(cfg, mode='range'))
-SEQ_POINT = [R(point.noeff1), R(point.keyeq1), R(find.find1), ORD_RANGE, R(slot.slot1), R(point.pair1), R(point.copy1), R(lambda cfg: point.desc1(cfg, which='point')), R(prefix.pfx1), R(prefix.pfx2), R(prefix.pfx3), R(prefix.pfx4), R(lambda cfg: point.type1(cfg, which='point')), R(lambda cfg: nodes.mut1(cfg, parts=('count', 'clear'))), R(nodes.idx1)]
-SEQ_SCAN = [R(seq.cmp3), R(enc.cmp_shape), R(enum1.enum1), R(iterrules.iter2), R(lambda cfg: point.desc1(cfg, which='seek')), R(iterrules.vis1), R(lambda cfg: point.type1(cfg, which='scan')), R(iterrules.stack1), R(iterrules.iter6), R(find.ord1), R(point.pair1)]
+SEQ_POINT = [R(point.noeff1), R(point.keyeq1), R(find.find1), ORD_RANGE, R(slot.slot1), R(point.pair1), R(point.copy1), R(lambda cfg: point.desc1(cfg, which='point')), R(prefix.pfx1), R(lambda cfg: prefix.pfx2(cfg, which='tree')), R(prefix.pfx3), R(prefix.pfx4), R(lambda cfg: point.type1(cfg, which='point')), R(lambda cfg: nodes.mut1(cfg, parts=('count', 'clear'))), R(nodes.idx1)]
+SEQ_SCAN = [R(seq.cmp3), R(enc.cmp_shape), R(enum1.enum1), R(iterrules.iter2), R(lambda cfg: point.desc1(cfg, which='seek')), R(iterrules.vis1), R(lambda cfg: point.type1(cfg, which='scan')), R(iterrules.stack1), R(iterrules.iter6), R(find.ord1), R(point.pair1), R(lambda cfg: prefix.pfx2(cfg, which='snapshot'))]
 
 
 def _qsbr_roots(m):
@@ -201,7 +201,7 @@ PROPERTIES['C01'] = {
     'level': 'other',
     'configs': three,
     'multi_rules': [R(lambda ctx, tier: simd_axis_sse(ctx, tier, fns=(slot.slot1, find.find1, lambda cfg: find.ord1(cfg, mode='range'))))],
-    'rules': [R(point.noeff1), R(point.keyeq1), R(point.leaf1), R(point.leaf2), R(point.leaf3), R(point.root1), R(point.split1), R(point.pair1), R(point.copy1), R(lambda cfg: point.desc1(cfg, which='point')), R(find.find1), ORD_RANGE, R(slot.slot1), R(prefix.pfx1), R(prefix.pfx2), R(prefix.pfx3), R(prefix.pfx4), R(lambda cfg: point.type1(cfg, which='point')), R(lambda cfg: nodes.mut1(cfg, parts=('count', 'clear'))), R(nodes.idx1), R(mutex.mx2), R(mutex.mx6),
+    'rules': [R(point.noeff1), R(point.keyeq1), R(point.leaf1), R(point.leaf2), R(point.leaf3), R(point.root1), R(point.split1), R(point.pair1), R(point.copy1), R(lambda cfg: point.desc1(cfg, which='point')), R(find.find1), ORD_RANGE, R(slot.slot1), R(prefix.pfx1), R(lambda cfg: prefix.pfx2(cfg, which='tree')), R(prefix.pfx3), R(prefix.pfx4), R(lambda cfg: point.type1(cfg, which='point')), R(lambda cfg: nodes.mut1(cfg, parts=('count', 'clear'))), R(nodes.idx1), R(mutex.mx2), R(mutex.mx6),
               R(qsbr.q_free_paths), R(qsbr.q_rotation), R(qsbr.q_barriers), R(lambda cfg: qsbr.q_orphans(cfg, parts=('7', '9'))), R(qsbr.q_tagging), R(qsbr.q_last_out), R(qsbr.q_register_epoch), R(qsbr.q_wrap), R(qstate.qs1), R(qsbr.q_cas),
               advisory(R(lambda cfg: iterrules.sib1_point(cfg, accounting=False))), R(lambda cfg: olcrules.lock6(cfg, kinds=('leaf',))), R(olcrules.lock6b)],
     'technique': 'static analysis: path-sensitive effect flow with callee summaries (result/effect correlation), control-dependence rules (full-key comparison guards), writer/reader expression agreement, abstract interpretation of the node search and key-prefix arithmetic in byte-vector / lane-wise three-valued domains with exhaustively enumerated lengths and counts, sibling differencing db vs olc_db',
@@ -222,14 +222,14 @@ PROPERTIES['C02'] = {
     'level': 'other',
     'configs': three,
     'multi_rules': [R(lambda ctx, tier: simd_axis_sse(ctx, tier, fns=(find.ord1,)))],
-    'rules': [R(seq.cmp1), R(enc.cmp_shape), R(seq.cmp3), R(seq.iter1), R(enum1.enum1), R(iterrules.iter2), R(iterrules.iter3), R(iterrules.iter4), R(iterrules.iter5), R(lambda cfg: point.desc1(cfg, which='seek')), R(iterrules.vis1), R(iterrules.stack1), R(iterrules.iter6), R(find.ord1), R(point.pair1), R(lambda cfg: point.type1(cfg, which='scan')), R(lambda cfg: enc.enc6(cfg, classes=KEYBUF)), R(lambda cfg: enc.enc7(cfg, classes=KEYBUF)), advisory(R(iterrules.sib1))],
+    'rules': [R(seq.cmp1), R(enc.cmp_shape), R(seq.cmp3), R(seq.iter1), R(enum1.enum1), R(iterrules.iter2), R(iterrules.iter3), R(iterrules.iter4), R(iterrules.iter5), R(lambda cfg: point.desc1(cfg, which='seek')), R(iterrules.vis1), R(iterrules.stack1), R(iterrules.iter6), R(find.ord1), R(point.pair1), R(lambda cfg: prefix.pfx2(cfg, which='snapshot')), R(lambda cfg: point.type1(cfg, which='scan')), R(lambda cfg: enc.enc6(cfg, classes=KEYBUF)), R(lambda cfg: enc.enc7(cfg, classes=KEYBUF)), advisory(R(iterrules.sib1))],
     'technique': 'static analysis: forward dataflow over event-CFGs (comparator operands, sibling-step consistency), scan-descriptor extraction per node-class enumeration method compared with a semantics table, must-pass-through rule for the fall-off branch of seek, path-class differencing of the db and olc_db iterators',
     'explanation': 'Static necessary conditions of "scans visit exactly the interval, in order", decided on the clang-instantiated code of db, mutex_db and olc_db for both key kinds: '
                    'CMP-1 every byte comparator is applied to key bytes, never to the object representation of a pointer-carrying object; CMP-2 detail::compare is memcmp over the common length, then shorter-first on a tie (evaluated for all sign / length cases); CMP-3 every three-way key comparison (art_key / leaf / iterator cmp) takes its result from the byte-wise comparator or another cmp, never from relational operators on the byte-swapped key word; '
                    'ITER-1 when an iterator function computes a sibling with next/prior/gte_key_byte/lte_key_byte and the answer holds a value, the child it descends into is the one the answer names; '
                    'ORD-1 / PAIR-1 (what ordered enumeration rests on) the dense classes insert at the rank of the new key byte in UNSIGNED byte order (a signed vector comparison applied to raw key bytes is reported as such; AVX2 and SSE4.2 builds) and move keys and children in lock-step, so the key array of every I4 / I16 is sorted and slot i of keys describes slot i of children; ENUM-1 each of the 96 per-node enumeration methods (begin/last/next/prior/gte_key_byte/lte_key_byte x 4 node classes x instantiations) is summarised by a scan descriptor (start, direction, bound, predicate, returned slot) and compared with the ART semantics table; a start index that passes through a conversion too narrow for its range (child index + 1 in 8 bits for the 256-slot classes) is reported as wrapping; '
                    'ITER-2 the scan drivers position with first / seek(fwd) resp. last / seek(rev), step with next resp. prior, stop at cmp(to) < 0 resp. > 0 (from inclusive, to exclusive), call the visitor once per entry and halt when it asks; '
-                   'ITER-3 when seek falls off an inner node (no child at/after resp. at/before the key byte) the first stack operation is the sibling step on the parent entry, never a pop; ITER-4 direction table: forward functions use forward primitives only and vice versa, and in seek every primitive sits under the direction flag and comparison sign the table demands (an opposite-direction descent is followed by a step in the seek direction); ITER-5 net stack effect of the step functions (replace the parent entry before a descent, remove exactly one entry otherwise); DESC-1 (seek) the descent of seek consumes the key consistently; VIS-1 the visitor is shown the key / value of the leaf on top of the iterator stack; TYPE-1 the iterator functions reinterpret a node pointer as a leaf exactly where its tag was tested LEAF; ITER-6 first / last / seek reset the iterator (invalidate()) before anything is pushed, on every path; STACK-1 the stack primitives push / push_leaf / pop (try_push / try_push_leaf in olc_db) pass a std::stack push resp. pop on every path (ITER-5 counts calls of them); ENC-6 / ENC-7 (key_buffer part) the key buffer the iterator keeps in step with its stack (written on every push) reserves before it appends (one byte: ensure_available(1) then buf[off++] = v; a span: ensure_available(n), memcpy(buf + off, data, n), off += n), pop(n) is off -= n, the view handed out is (buf, off), and the growth helper keeps the bytes already there; SIB-1 (ADVISORY only, evidence notes, never the verdict) the db and olc_db iterators make the same algorithmic decisions once lock events are projected away.',
+                   'ITER-3 when seek falls off an inner node (no child at/after resp. at/before the key byte) the first stack operation is the sibling step on the parent entry, never a pop; ITER-4 direction table: forward functions use forward primitives only and vice versa, and in seek every primitive sits under the direction flag and comparison sign the table demands (an opposite-direction descent is followed by a step in the seek direction); ITER-5 net stack effect of the step functions (replace the parent entry before a descent, remove exactly one entry otherwise); DESC-1 (seek) the descent of seek consumes the key consistently; PFX-2 (snapshot) key_prefix_snapshot::shared_len - the copy of the shared-length computation that only seek uses - is min(first differing BYTE, clamp); VIS-1 the visitor is shown the key / value of the leaf on top of the iterator stack; TYPE-1 the iterator functions reinterpret a node pointer as a leaf exactly where its tag was tested LEAF; ITER-6 first / last / seek reset the iterator (invalidate()) before anything is pushed, on every path; STACK-1 the stack primitives push / push_leaf / pop (try_push / try_push_leaf in olc_db) pass a std::stack push resp. pop on every path (ITER-5 counts calls of them); ENC-6 / ENC-7 (key_buffer part) the key buffer the iterator keeps in step with its stack (written on every push) reserves before it appends (one byte: ensure_available(1) then buf[off++] = v; a span: ensure_available(n), memcpy(buf + off, data, n), off += n), pop(n) is off -= n, the view handed out is (buf, off), and the growth helper keeps the bytes already there; SIB-1 (ADVISORY only, evidence notes, never the verdict) the db and olc_db iterators make the same algorithmic decisions once lock events are projected away.',
     'decides': 'address independence of comparisons; sibling-step consistency; per-node ordered enumeration; bound handling of the scan drivers; seek fall-off; db/olc agreement',
     'does_not_decide': 'completeness of seek\'s case analysis for every tree shape and bound as a theorem; delivered key lists as values',
 }
@@ -273,14 +273,14 @@ PROPERTIES['C03'] = {
     'configs': three,
     'multi_rules': [R(lambda ctx, tier: simd_axis_sse(ctx, tier, olc_only=True, fns=(slot.slot1, find.find1, lambda cfg: find.ord1(cfg, mode='range'))))],
     'rules': [scoped(olc('LOCK-1'), _olc_point_roots, POINT), scoped(olc('LOCK-2'), _olc_point_roots, POINT), scoped(olc('LOCK-3'), _olc_point_roots, POINT), scoped(olc('LOCK-5'), _olc_point_roots, POINT),
-              scoped(olc('LOCK-9'), _olc_point_roots, POINT), scoped(keep_keys(olc('ROLE'), lambda k: 'source_node_guard' not in k, 'swapped guards of a shrink are harmless in release builds - C16'), _olc_point_roots, POINT), scoped(R(point.lock11), _olc_point_roots, POINT), scoped(R(couple.lock12), _olc_point_roots, POINT), scoped(R(couple.lock13), _olc_point_roots, POINT),
+              scoped(olc('LOCK-9'), _olc_point_roots, POINT), scoped(keep_keys(olc('ROLE'), lambda k: 'source_node_guard' not in k, 'swapped guards of a shrink are harmless in release builds - C16'), _olc_point_roots, POINT), scoped(R(point.lock11), _olc_point_roots, POINT), scoped(R(couple.lock12), _olc_point_roots, POINT), scoped(R(couple.lock13), _olc_point_roots, POINT), scoped(R(lock7a), _olc_point_roots, POINT),
               R(lockword.lw)] + [olc_side(r_) for r_ in SEQ_POINT],
     'technique': 'static analysis: relational path-sensitive typestate dataflow (bounded sets of worlds of must/may atoms) over event-CFGs with per-return callee summaries and index-sensitive write-effect summaries',
     'explanation': 'Protocol conformance of the optimistic-lock-coupling code, decided by a relational, path-sensitive dataflow (bounded sets of worlds of must/may atoms over the variables of each function, '
                    'per-return summaries through the dispatcher/shim forwarders, effect summaries for protected-field writes) over every OLC function that owns or receives read sections or write guards, both key kinds: '
                    'LOCK-1 no node pointer read under a read section is dereferenced, and no non-restart result returned, before that section is re-validated; '
                    'LOCK-2 every store to a protected field (direct or through callees, index-sensitive for children) happens under an active write guard on the written node, or the node is fresh / obsoleted by this operation; '
-                   'LOCK-3 guards are taken root-to-leaf and nothing waits while a guard is held; LOCK-5 nodes are obsoleted before they are retired; LOCK-9 lock coupling: the section on a child is opened while the section it was reached under is still open; ROLE helper call sites pass matching section/node pairs; LOCK-11 on the failing side of every lock-step test (must_restart / check / try_read_unlock) only the restart result is returned, never a definitive answer; LOCK-12 the root pointer is loaded only after the read section on the root pointer lock has been opened; LOCK-13 the validation half of lock coupling: once a section has been opened on a further node every section already open is stale until validated again (check / try_read_unlock / upgrade), and no tree-modifying step (node mutators, stores into pointer slots, unlock_and_obsolete - may-analysis through by-reference parameters, with per-function entry requirements and per-return summaries) is made and no inode-derived definitive result returned (must-analysis) while an open section is stale. Verdicts are scoped to the callee closure of olc_db get / insert / remove (the iterator is C09). The property also rests on the lock itself and on the sequential algorithm as instantiated for olc_db, so the lock-word premises LW-1..5 (C07) and the OLC-side findings of the sequential rules NOEFF-1, KEYEQ-1, FIND-1, ORD-1, SLOT-1, PAIR-1, COPY-1, DESC-1, PFX-1/2/3/4, TYPE-1, MUT-1, IDX-1 (C01) are reported here too. '
+                   'LOCK-3 guards are taken root-to-leaf and nothing waits while a guard is held; LOCK-5 nodes are obsoleted before they are retired; LOCK-9 lock coupling: the section on a child is opened while the section it was reached under is still open; ROLE helper call sites pass matching section/node pairs; LOCK-11 on the failing side of every lock-step test (must_restart / check / try_read_unlock) only the restart result is returned, never a definitive answer; LOCK-7a no read section that may still be open is overwritten by assignment - an overwritten open section is a validation that never happens (the descent moves on to the child although the parent was not re-validated after the child was locked); LOCK-12 the root pointer is loaded only after the read section on the root pointer lock has been opened; LOCK-13 the validation half of lock coupling: once a section has been opened on a further node every section already open is stale until validated again (check / try_read_unlock / upgrade), and no tree-modifying step (node mutators, stores into pointer slots, unlock_and_obsolete - may-analysis through by-reference parameters, with per-function entry requirements and per-return summaries) is made and no inode-derived definitive result returned (must-analysis) while an open section is stale. Verdicts are scoped to the callee closure of olc_db get / insert / remove (the iterator is C09). The property also rests on the lock itself and on the sequential algorithm as instantiated for olc_db, so the lock-word premises LW-1..5 (C07) and the OLC-side findings of the sequential rules NOEFF-1, KEYEQ-1, FIND-1, ORD-1, SLOT-1, PAIR-1, COPY-1, DESC-1, PFX-1/2/3/4, TYPE-1, MUT-1, IDX-1 (C01) are reported here too. '
                    'Each rule is a necessary condition of linearizability: its breach yields a concrete torn read / lost update under some schedule.',
     'decides': 'OLC protocol conformance (LOCK-1,2,3,5,9,11,12,13, ROLE) on every CFG path of every instantiation of the point operations and their helpers',
     'does_not_decide': 'linearizability of histories as such; value-level correctness of the tree algorithms',
@@ -302,19 +302,19 @@ PROPERTIES['C09'] = {
     'level': 'other',
     'configs': three,
     'rules': [scoped(olc('LOCK-1'), _olc_scan_roots, SCAN), scoped(olc('LOCK-7'), _olc_scan_roots, SCAN), scoped(olc('LOCK-8'), _olc_scan_roots, SCAN), scoped(olc('LOCK-9'), _olc_scan_roots, SCAN), scoped(keep_keys(olc('ROLE'), lambda k: 'source_node_guard' not in k, 'swapped guards of a shrink are harmless in release builds - C16'), _olc_scan_roots, SCAN),
-              scoped(R(seq.iter1), _olc_scan_roots, SCAN), scoped(R(iterrules.reseek), _olc_scan_roots, SCAN), scoped(R(iterrules.iter3), _olc_scan_roots, SCAN), scoped(R(iterrules.iter4), _olc_scan_roots, SCAN), scoped(R(iterrules.iter5), _olc_scan_roots, SCAN), scoped(R(point.lock11), _olc_scan_roots, SCAN), scoped(R(couple.lock12), _olc_scan_roots, SCAN), scoped(R(couple.lock13), _olc_scan_roots, SCAN), R(lambda cfg: enc.enc6(cfg, classes=KEYBUF)), R(lambda cfg: enc.enc7(cfg, classes=KEYBUF)),
+              scoped(R(seq.iter1), _olc_scan_roots, SCAN), scoped(R(iterrules.reseek), _olc_scan_roots, SCAN), scoped(R(iterrules.iter3), _olc_scan_roots, SCAN), scoped(R(iterrules.iter4), _olc_scan_roots, SCAN), scoped(R(iterrules.iter5), _olc_scan_roots, SCAN), scoped(R(point.lock11), _olc_scan_roots, SCAN), scoped(R(couple.lock12), _olc_scan_roots, SCAN), scoped(R(couple.lock13), _olc_scan_roots, SCAN), scoped(R(lock7a), _olc_scan_roots, SCAN), R(couple.lock8b), R(lambda cfg: enc.enc6(cfg, classes=KEYBUF)), R(lambda cfg: enc.enc7(cfg, classes=KEYBUF)),
               R(lockword.lw)] + [olc_side(r_) for r_ in SEQ_SCAN],
     'technique': 'static analysis: relational typestate dataflow over the OLC iterator functions (section validation, stack-entry/version pairing, lock coupling), must-pass-through rules for the re-seek path and the fall-off branch of seek',
     'explanation': 'Structural conditions of concurrent-scan correctness on the OLC iterator functions: LOCK-1 (snapshots validated before use / before a non-restart return), LOCK-7b (no validation on an ended, empty or moved-from section), '
                    'LOCK-8 (every stack entry is pushed with the version of the read section opened on the node it describes, so a later rehydrate/check validates the right lock word), LOCK-9 (hand-over-hand: the child section is opened before the parent section is given up), ROLE (the traversals receive the section their node argument was read under), ITER-1 (the sibling computed is the sibling visited, also on the re-seek path), '
-                   'RESEEK-1 (when a step finds its stack invalidated it re-seeks to the key it stood on, captured before anything is unwound, in the direction of the step, and steps past it exactly when the re-seek found that key again), ITER-3 (when seek falls off an inner node the first stack operation is the sibling step on the parent entry, never a pop), ITER-4 / ITER-5 (direction table and net stack effect of the OLC iterator functions), LOCK-11 (a failed lock step or a failed push leads to the restart result only), LOCK-12 / LOCK-13 (the root pointer is loaded inside its section; nothing definitive while an open section is stale - see C03). Verdicts are scoped to the callee closure of the olc_db iterator and scan functions (the sequential iterator is C02); the lock-word premises LW-1..5 and the OLC-side findings of CMP-2/3, ENUM-1, ITER-2, DESC-1 (seek), VIS-1, TYPE-1, ORD-1 / PAIR-1 (sorted, paired key arrays), STACK-1, ITER-6 (try_first / try_last / try_seek reset the iterator before they push: they are re-entered by the retry loops, and an abandoned attempt leaves entries behind) and the key-buffer rules ENC-6 / ENC-7 (the OLC iterator assembles its keys in the same buffer class) are reported here too.',
+                   'RESEEK-1 (when a step finds its stack invalidated it re-seeks to the key it stood on, captured before anything is unwound, in the direction of the step, and steps past it exactly when the re-seek found that key again), ITER-3 (when seek falls off an inner node the first stack operation is the sibling step on the parent entry, never a pop), ITER-4 / ITER-5 (direction table and net stack effect of the OLC iterator functions), LOCK-11 (a failed lock step or a failed push leads to the restart result only), LOCK-12 / LOCK-13 (the root pointer is loaded inside its section; nothing definitive while an open section is stale - see C03), LOCK-8b (try_next / try_prior re-enter the node of a saved stack entry through rehydrate_read_lock(entry.version) + check(), never through a fresh try_read_lock(): the saved child index is only as good as the version it was saved at). Verdicts are scoped to the callee closure of the olc_db iterator and scan functions (the sequential iterator is C02); the lock-word premises LW-1..5 and the OLC-side findings of CMP-2/3, ENUM-1, ITER-2, DESC-1 (seek), VIS-1, TYPE-1, ORD-1 / PAIR-1 (sorted, paired key arrays), STACK-1, ITER-6 (try_first / try_last / try_seek reset the iterator before they push: they are re-entered by the retry loops, and an abandoned attempt leaves entries behind) and the key-buffer rules ENC-6 / ENC-7 (the OLC iterator assembles its keys in the same buffer class) are reported here too.',
     'decides': 'snapshot validation, stack-entry/version pairing and sibling-step consistency in try_first/last/next/prior/seek and the traversals',
     'does_not_decide': 'ordering / completeness of delivered keys under interleavings',
 }
 PROPERTIES['C14'] = {
     'level': 'other',
     'configs': three,
-    'rules': [olc('LOCK-3'), olc('LOCK-4'), olc('LOCK-7'), R(lock7a), keep_keys(R(lockword.lw6), lambda k: k.startswith('LW-6:upgrade'), 'a unit given back twice or never taken makes an assertion fire - C16 - but leaves no node read-locked'), R(point.lock10), keep_keys(R(point.lock11), lambda k: 'retry-in-place' in k, 'a definitive answer after a failed lock step is a wrong result - C03 / C09 - not a hang'), R(lock2_obsoleting), lw_parts(('LW-1:dtor', 'LW-1:deactivate', 'LW-1:op', 'LW-1:store-value', 'LW-1:cas-desired', 'LW-1:caller:unodb::optimistic_lock::atomic_version_type::cas_acquire', 'LW-1:caller:unodb::optimistic_lock::try_upgrade', 'LW-1:caller:unodb::optimistic_lock::write_guard::try_lock_upgrade', 'LW-2', 'LW-3', 'LW-7:unlock|', 'LW-7:write_unlock|', 'LW-7:store:write_unlock|', 'LW-7:try_lock_upgrade', 'LW-7:try_upgrade', 'LW-10'), 'memory orders, whole-word comparison, section snapshots and a missing obsoletion concern linearizability - C03 / C07 - not lock release or waiting')],
+    'rules': [olc('LOCK-3'), olc('LOCK-4'), olc('LOCK-7'), R(lock7a), R(lockword.lw6), R(point.lock10), keep_keys(R(point.lock11), lambda k: 'retry-in-place' in k, 'a definitive answer after a failed lock step is a wrong result - C03 / C09 - not a hang'), R(lock2_obsoleting), lw_parts(('LW-1:dtor', 'LW-1:deactivate', 'LW-1:op', 'LW-1:store-value', 'LW-1:cas-desired', 'LW-1:caller:unodb::optimistic_lock::atomic_version_type::cas_acquire', 'LW-1:caller:unodb::optimistic_lock::try_upgrade', 'LW-1:caller:unodb::optimistic_lock::write_guard::try_lock_upgrade', 'LW-2', 'LW-3', 'LW-7:unlock|', 'LW-7:write_unlock|', 'LW-7:store:write_unlock|', 'LW-7:try_lock_upgrade', 'LW-7:try_upgrade', 'LW-10'), 'memory orders, whole-word comparison, section snapshots and a missing obsoletion concern linearizability - C03 / C07 - not lock release or waiting')],
     'technique': 'static analysis: relational typestate dataflow for lock order / no-wait-while-locked / guard typestate on every CFG path incl. exceptional exits of scope guards; path-sensitive effect flow (obsoletion followed by a restart result)',
     'explanation': 'No-deadlock / no-lock-left-held conditions: LOCK-3 (write ownership is only taken by non-blocking upgrade in root-to-leaf order and no waiting primitive - try_read_lock spin, spin_wait_loop_body - is reached while a guard is active, '
                    'so no wait-for cycle can contain a writer and readers hold nothing), LOCK-4 (no operation on a guard that is not active: no double unlock / null dereference; guards are scope-bound RAII objects), LOCK-7b (sections are not validated after they ended), LOCK-7a / LW-6 (optimistic read locks are counted per node in assertion-enabled builds - the only sense in which a reader holds a node: no open section is overwritten by assignment, with per-return summaries of the helpers that end or keep the sections they are handed, and check / try_read_unlock / upgrade give the unit back on exactly the paths on which the section forgets its lock - so an operation that returns leaves no node read-locked, which would abort the later operation that frees that node), LOCK-11, retry part (when must_restart() reports an obsolete node the function returns the restart result and does not loop back to the same lock step: obsolete is final, a retry in place spins for ever although nobody holds a lock), LOCK-10 (obsoletion is a point of no return: no path marks a node obsolete and then abandons the attempt with a restart result while the node is still linked - otherwise every later operation reaching that node restarts for ever although nobody holds a lock; path-sensitive effect flow with callee summaries), LOCK-2 restricted to functions that obsolete a node (the store that replaces / unlinks the obsoleted node in its parent is made under the active write guard of the parent: a store after the guard is gone can hit a slot that has moved, and the obsolete node stays linked); the lock-word premises of C07 that concern release and waiting - LW-1 (write ownership only through write_guard, which deactivates itself and unlocks exactly when active), LW-2 (is_free / is_write_locked / obsolete encodings: a wrong one makes try_read_lock wait for ever), LW-3 (the try_read_lock wait loop leaves on an obsolete word), LW-7 (unlock really unlocks, the upgrade is the CAS), LW-10 (a saved version tag keeps all 64 bits from rcs.get() through the iterator stack to rehydrate_read_lock: a truncated tag stops validating once the lock word passes 2^32, and the iterator re-seeks for ever although nobody holds a lock) - are reported here too: the anchors of this property include the lock; the memory-order, comparison and snapshot premises (LW-4, 5, 8, 9) are not.',
